@@ -173,7 +173,16 @@ func TestOctreeLosesNothing(t *testing.T) {
 		res := sz.MaxComponent() / float64(cells)
 		hdiagMin := 0.5 * math.Sqrt(3) * res // half diagonal of the finest cube that is tested for emptiness
 		base := &lat.Recorder3{S: s}
-		tb := render.ToTriangles(base, render.NewMarchingCubesOctree(cells))
+		// one renderer object for the whole case; with some probability it has already rendered another
+		// shape in the same box (a renderer may be reused for several parts)
+		ro := render.NewMarchingCubesOctree(cells)
+		if rapid.IntRange(0, 2).Draw(t, "reuse-renderer") == 0 {
+			dr := sz.MinComponent() * g.F(0.1, 0.4).Draw(t, "decoy-radius")
+			sp, _ := sdf.Sphere3D(dr)
+			render.ToTriangles(lat.Rebox3{S: sdf.Transform3D(sp, sdf.Translate3d(bb.Center())), BB: bb}, ro)
+			rec.Add("octree:renderer-reused", 1)
+		}
+		tb := render.ToTriangles(base, ro)
 		// bound |f| over the sampled cube from a corner value and the Lipschitz property, then pick k
 		maxAbs := 0.0
 		for _, v := range base.Val {
@@ -314,7 +323,14 @@ func TestQuadtreeLosesNothing(t *testing.T) {
 		res := math.Max(sz.X, sz.Y) / float64(cells)
 		hdiagMin := 0.5 * math.Sqrt(2) * res
 		base := &lat.Recorder2{S: s}
-		lb := collect2(base, render.NewMarchingSquaresQuadtree(cells))
+		rq := render.NewMarchingSquaresQuadtree(cells)
+		if rapid.IntRange(0, 2).Draw(t, "reuse-renderer") == 0 {
+			dr := math.Min(sz.X, sz.Y) * g.F(0.1, 0.4).Draw(t, "decoy-radius")
+			ci, _ := sdf.Circle2D(dr)
+			collect2(lat.Rebox2{S: sdf.Transform2D(ci, sdf.Translate2d(bb.Center())), BB: bb}, rq)
+			rec.Add("quadtree:renderer-reused", 1)
+		}
+		lb := collect2(base, rq)
 		maxAbs := 0.0
 		for _, v := range base.Val {
 			maxAbs = math.Max(maxAbs, math.Abs(v))
@@ -359,5 +375,171 @@ func TestQuadtreeLosesNothing(t *testing.T) {
 		rec.Add("quadtree:points-base", int64(nb))
 		rec.Add("quadtree:points-unpruned", int64(ns))
 		rec.Sample("quadtree:"+kind, map[string]any{"kind": kind, "scene": desc, "cells": cells, "k": k, "segments": len(lb), "points_base": nb, "points_unpruned": ns})
+	})
+}
+
+// ---------------------------------------------------------------------------
+// all octree / quadtree depths: sparse scenes at high cell counts
+
+type rod struct {
+	a, b v3.Vec
+	r    float64
+	bb   sdf.Box3
+}
+
+func (c rod) Evaluate(p v3.Vec) float64 {
+	ab, ap := c.b.Sub(c.a), p.Sub(c.a)
+	t := math.Max(0, math.Min(1, ap.Dot(ab)/ab.Length2()))
+	return p.Sub(c.a.Add(ab.MulScalar(t))).Length() - c.r
+}
+func (c rod) BoundingBox() sdf.Box3 { return c.bb }
+
+// TestOctreeHighResolution: a thin capsule in a big box at up to 1200 cells (octree depth 12). The
+// unpruned comparison is out of reach there (10^9 cells); the oracle is closedness + vertices on
+// the exact surface + completeness: sampled surface points have mesh within a cell diagonal.
+func TestOctreeHighResolution(t *testing.T) {
+	rec := ev.Get()
+	rapid.Check(t, func(t *rapid.T) {
+		cells := rapid.IntRange(100, ev.Pick(900, 1400)).Draw(t, "cells")
+		L := 100.0
+		h := L / float64(cells)
+		// the capsule spans most of the box along a random direction; radius a few cells
+		dir := v3.Vec{X: g.F(-1, 1).Draw(t, "dx"), Y: g.F(-1, 1).Draw(t, "dy"), Z: g.F(-1, 1).Draw(t, "dz")}
+		if rapid.IntRange(0, 2).Draw(t, "axis-aligned") == 0 {
+			dir = [3]v3.Vec{{X: 1}, {Y: 1}, {Z: 1}}[rapid.IntRange(0, 2).Draw(t, "axis")]
+		}
+		if dir.Length() < 0.1 {
+			dir = v3.Vec{Z: 1}
+		}
+		dir = dir.Normalize()
+		half := 0.45 * L / math.Max(math.Abs(dir.X), math.Max(math.Abs(dir.Y), math.Abs(dir.Z)))
+		half = math.Min(half, 0.8*L)
+		r := h * g.F(1.2, 3).Draw(t, "radius-in-cells")
+		c := v3.Vec{X: g.F(-2, 2).Draw(t, "cx"), Y: g.F(-2, 2).Draw(t, "cy"), Z: g.F(-2, 2).Draw(t, "cz")}
+		half = math.Min(half, 0.45*L-r-3)
+		s := rod{a: c.Sub(dir.MulScalar(half)), b: c.Add(dir.MulScalar(half)), r: r, bb: sdf.Box3{Min: v3.Vec{X: -L / 2, Y: -L / 2, Z: -L / 2}, Max: v3.Vec{X: L / 2, Y: L / 2, Z: L / 2}}}
+		ts := render.ToTriangles(s, render.NewMarchingCubesOctree(cells))
+		desc := fmt.Sprintf("capsule %v..%v radius %v in a %v box", s.a, s.b, r, L)
+		if len(ts) == 0 {
+			rec.Violation(t, "MarchingCubesOctree:high-resolution:empty-mesh", "%d cells, %s: no triangles", cells, desc)
+		}
+		// closedness (directed edge balance) with exact vertex identity: adjacent cells compute a shared
+		// vertex from the same two lattice points; allow the order of the end points to differ (1e-6 h)
+		type e2 struct{ a, b int }
+		ids := map[[3]int64]int{}
+		id := func(v v3.Vec) int {
+			k := [3]int64{int64(math.Round(v.X / (1e-4 * h))), int64(math.Round(v.Y / (1e-4 * h))), int64(math.Round(v.Z / (1e-4 * h)))}
+			if i, ok := ids[k]; ok {
+				return i
+			}
+			ids[k] = len(ids)
+			return len(ids) - 1
+		}
+		cnt := map[e2]int{}
+		worst := 0.0
+		for _, tr := range ts {
+			a, b, cc := id(tr[0]), id(tr[1]), id(tr[2])
+			for _, e := range []e2{{a, b}, {b, cc}, {cc, a}} {
+				if e.a != e.b {
+					cnt[e]++
+				}
+			}
+			for _, v := range tr {
+				worst = math.Max(worst, math.Abs(s.Evaluate(v)))
+			}
+		}
+		open := 0
+		for e, n := range cnt {
+			if cnt[e2{e.b, e.a}] != n {
+				open++
+			}
+		}
+		if open > 0 {
+			rec.Violation(t, "MarchingCubesOctree:high-resolution:open-edge", "%d cells, %s: %d unmatched directed edges (%d triangles)", cells, desc, open, len(ts))
+		}
+		if worst > h*(1+1e-9) {
+			rec.Violation(t, "MarchingCubesOctree:high-resolution:vertex-off-surface", "%d cells (h=%v), %s: a vertex is %v from the surface", cells, h, desc, worst)
+		}
+		// completeness: points of the true surface have mesh nearby
+		diag := math.Sqrt(3) * h
+		u := dir.Cross(v3.Vec{X: 0.3, Y: 0.5, Z: 0.8}).Normalize()
+		w := dir.Cross(u)
+		for i := 0; i < 24; i++ {
+			tt := g.F(-1, 1).Draw(t, fmt.Sprintf("st%d", i)) * half
+			ph := g.F(-math.Pi, math.Pi).Draw(t, fmt.Sprintf("sp%d", i))
+			p := c.Add(dir.MulScalar(tt)).Add(u.MulScalar(r * math.Cos(ph))).Add(w.MulScalar(r * math.Sin(ph)))
+			near := false
+			for _, tr := range ts {
+				if tr[0].Sub(p).Length() <= 2*diag {
+					near = true
+					break
+				}
+			}
+			if !near {
+				rec.Violation(t, "MarchingCubesOctree:high-resolution:surface-not-meshed", "%d cells, %s: no mesh vertex within two cell diagonals of the surface point %v", cells, desc, p)
+			}
+		}
+		rec.Case(len(ts) > 0, ev.Key("rod3", cells, desc), "octree-highres", fmt.Sprintf("octree-highres:levels=%d", int(math.Ceil(math.Log2(1.01*L/(h/2))))+1))
+		rec.Sample("octree-highres", map[string]any{"cells": cells, "scene": desc, "triangles": len(ts), "worst_vertex_distance_over_h": worst / h})
+	})
+}
+
+type rod2 struct {
+	a, b v2.Vec
+	r    float64
+	bb   sdf.Box2
+}
+
+func (c rod2) Evaluate(p v2.Vec) float64 {
+	ab, ap := c.b.Sub(c.a), p.Sub(c.a)
+	t := math.Max(0, math.Min(1, ap.Dot(ab)/ab.Length2()))
+	return p.Sub(c.a.Add(ab.MulScalar(t))).Length() - c.r
+}
+func (c rod2) BoundingBox() sdf.Box2 { return c.bb }
+
+func TestQuadtreeHighResolution(t *testing.T) {
+	rec := ev.Get()
+	rapid.Check(t, func(t *rapid.T) {
+		cells := rapid.IntRange(300, ev.Pick(6000, 20000)).Draw(t, "cells")
+		L := 100.0
+		h := L / float64(cells)
+		a := g.F(-math.Pi, math.Pi).Draw(t, "angle")
+		if rapid.IntRange(0, 2).Draw(t, "axis-aligned") == 0 {
+			a = float64(rapid.IntRange(0, 3).Draw(t, "axis")) * math.Pi / 2
+		}
+		dir := v2.Vec{X: math.Cos(a), Y: math.Sin(a)}
+		r := h * g.F(1.2, 3).Draw(t, "radius-in-cells")
+		c := v2.Vec{X: g.F(-2, 2).Draw(t, "cx"), Y: g.F(-2, 2).Draw(t, "cy")}
+		half := 0.45*L/math.Max(math.Abs(dir.X), math.Abs(dir.Y)) - r - 3
+		s := rod2{a: c.Sub(dir.MulScalar(half)), b: c.Add(dir.MulScalar(half)), r: r, bb: sdf.Box2{Min: v2.Vec{X: -L / 2, Y: -L / 2}, Max: v2.Vec{X: L / 2, Y: L / 2}}}
+		ls := collect2(s, render.NewMarchingSquaresQuadtree(cells))
+		desc := fmt.Sprintf("capsule %v..%v radius %v in a %v box", s.a, s.b, r, L)
+		deg := map[[2]int64]int{}
+		worst, length := 0.0, 0.0
+		for _, l := range ls {
+			for _, v := range l {
+				deg[[2]int64{int64(math.Round(v.X / (1e-4 * h))), int64(math.Round(v.Y / (1e-4 * h)))}]++
+				worst = math.Max(worst, math.Abs(s.Evaluate(v)))
+			}
+			length += l[1].Sub(l[0]).Length()
+		}
+		odd := 0
+		for _, d := range deg {
+			if d%2 != 0 {
+				odd++
+			}
+		}
+		if len(ls) == 0 || odd > 0 {
+			rec.Violation(t, "MarchingSquaresQuadtree:high-resolution:not-closed", "%d cells, %s: %d segments, %d end points of odd degree", cells, desc, len(ls), odd)
+		}
+		if worst > h*(1+1e-9) {
+			rec.Violation(t, "MarchingSquaresQuadtree:high-resolution:endpoint-off-boundary", "%d cells (h=%v), %s: an end point is %v from the boundary", cells, h, desc, worst)
+		}
+		want := 4*half + 2*math.Pi*r
+		if math.Abs(length-want) > 0.05*want {
+			rec.Violation(t, "MarchingSquaresQuadtree:high-resolution:contour-incomplete", "%d cells, %s: contour length %v, perimeter %v", cells, desc, length, want)
+		}
+		rec.Case(len(ls) > 0, ev.Key("rod2", cells, desc), "quadtree-highres")
+		rec.Sample("quadtree-highres", map[string]any{"cells": cells, "scene": desc, "segments": len(ls), "length": length, "perimeter": want})
 	})
 }
